@@ -303,6 +303,8 @@ def _variants():
         V("colours-or-bounds", replace_expr(PE, "Perm.occurrences_in", "compare_colours and lower_bound <= element <= upper_bound", "compare_colours or lower_bound <= element <= upper_bound"), "fire", "C01-O2"),
         V("bounds-strict", replace_expr(PE, "Perm.occurrences_in", "lower_bound <= element <= upper_bound", "lower_bound < element <= upper_bound"), "fire", "C01-O2"),
         V("colours-args-swapped", replace_stmt(PE, "Perm.occurrences_in", "self_colours, patt_colours = (None, None) if len(args) < 2 else args", "patt_colours, self_colours = (None, None) if len(args) < 2 else args"), "fire-or-undecided", "C01-O2"),
+        V("same-length-fast-path", replace_stmt(PE, "Perm.occurrences_in", "if n > len(pattern): ...", "if n >= len(pattern):\n    if self == pattern:\n        yield tuple(range(n))\n    return"), "fire-or-undecided", "C01-O1"),
+        V("too-long-nonstrict", replace_expr(PE, "Perm.occurrences_in", "n > len(pattern)", "n >= len(pattern)"), "fire", "C01-O1"),
         V("search-nonstrict-recursion", replace_expr(PE, "Perm.occurrences_in", "occurrences(i + 1, k + 1)", "occurrences(i, k + 1)"), "fire", "C01-O1"),
         V("search-skips-position", replace_stmt(PE, "Perm.occurrences_in", "i, elements_remaining = (i + 1, elements_remaining - 1)", "i, elements_remaining = (i + 2, elements_remaining - 2)"), "fire", "C01-O1"),
         V("search-starts-at-1", replace_expr(PE, "Perm.occurrences_in", "occurrences(0, 0)", "occurrences(1, 0)"), "fire", "C01-O1"),
@@ -416,9 +418,20 @@ def rule_o1(ctx: Ctx) -> None:
                 ctx.violation("C01-O1", rec, guard, f"a tuple is reported when `{g}`; it must be reported exactly when the last of the {n_name} entries has been placed")
     else:
         ctx.violation("C01-O1", rec, lp, "the accepted index is not recorded as indices[k] = i and reported as tuple(indices)")
-    # too-long pattern
-    longs = [st for st in occ.body if isinstance(st, ast.If) and len(st.body) == 1 and isinstance(st.body[0], ast.Return)]
-    _ = longs
+    # no other reporting path: besides `yield ()` for the empty pattern and the search itself nothing is yielded,
+    # and the only other early exit is "pattern longer than the target -> nothing"
+    other_yields = [n for n in walk_no_nested(occ.node) if isinstance(n, (ast.Yield, ast.YieldFrom))
+                    and not any(n is sub for e in empties for sub in ast.walk(e)) and not any(n is sub for s2 in starts for sub in ast.walk(s2))]
+    if other_yields:
+        raise AnalysisError(f"{occ.where}: an additional reporting path (`{unparse(other_yields[0])[:60]}`, line {other_yields[0].lineno}) bypasses the search; whether it lists exactly the (colour-matching) occurrences is not decided")
+    target_len = None
+    for st in occ.body:
+        if isinstance(st, ast.If) and st not in empties and len(st.body) == 1 and isinstance(st.body[0], ast.Return) and st.body[0].value is None and not st.orelse:
+            t = unparse(st.test)
+            if t.startswith(f"{n_name} > len(") or t.endswith(f") < {n_name}"):
+                ctx.ok("C01-O1", occ.where, "a pattern longer than the target has no occurrence (the only other early exit)", st, occ)
+            else:
+                ctx.violation("C01-O1", occ, st, f"the search is abandoned without reporting anything when `{t}`; only a pattern strictly longer than the target has no occurrence")
 
 
 _OLD_RUN = run
@@ -429,7 +442,7 @@ def run(ctx: Ctx) -> None:  # noqa: F811
     ctx.run(rule_o1, ctx)
 
 
-FLOORS["C01-O1"] = 6
+FLOORS["C01-O1"] = 7
 
 
 # ---------------------------------------------------------------------------- M4: scratch state is per search
